@@ -43,7 +43,10 @@ def encOut (o : Out) : Sexp :=
 
 /-- residue kinds of one function of a stage dump: which of `param`/`app`/`tvar`/`traitcall` remain -/
 def residue (f : Fn) : List String :=
-  (if Closed.fnAllTys Closed.noParam f then [] else ["param"]) ++
+  -- a type parameter in the *signature* of a function of a monomorphised program (an instance that was
+  -- emitted without binding one of its parameters) is told apart from one that occurs only in the body
+  (if Closed.fnAllTys Closed.noParam f then []
+   else if Closed.allParamTys Closed.noParam f.params && Closed.noParam f.ret then ["param"] else ["param-in-signature"]) ++
   (if Closed.fnAllTys Closed.noApp f then [] else ["app"]) ++
   (if Closed.fnAllTys Closed.noTVar f then [] else ["tvar"]) ++
   (if Closed.noTraitCall f.body then [] else ["traitcall"])
@@ -87,6 +90,33 @@ partial def tysOf : Expr → List Ty
 def appContext (f : Fn) : String :=
   ((f.params.map (·.2) ++ [f.ret] ++ tysOf f.body).findSome? (appUnder "top")).getD "?"
 
+/-- names of the type parameters occurring in a type -/
+partial def paramNames : Ty → List String
+  | .param n => [n]
+  | .tuple ts => ts.flatMap paramNames
+  | .app t args => paramNames t ++ args.flatMap paramNames
+  | .array _ e => paramNames e
+  | .vec e => paramNames e
+  | .ref e => paramNames e
+  | .func ps r => ps.flatMap paramNames ++ paramNames r
+  | _ => []
+
+/-- residues in the field types of the monomorphic type definitions of a stage environment
+(`param-in-type-definition(A+B)` names the parameters) -/
+def defResidues (es : List EnumDef) (ss : List StructDef) : List String :=
+  let kinds (ts : List Ty) : List String :=
+    (if ts.all Closed.noParam then [] else ["param-in-type-definition(" ++ "+".intercalate (ts.flatMap paramNames).eraseDups ++ ")"]) ++
+    (if ts.all Closed.noApp then [] else ["app-in-type-definition"]) ++
+    (if ts.all Closed.noTVar then [] else ["tvar-in-type-definition"])
+  (es.filterMap fun d => if !d.generics.isEmpty then none else
+    match kinds (d.variants.flatMap (·.2)) with
+    | [] => none
+    | ks => some ("type " ++ d.name ++ ":" ++ ",".intercalate ks)) ++
+  (ss.filterMap fun d => if !d.generics.isEmpty then none else
+    match kinds (d.fields.map (·.2)) with
+    | [] => none
+    | ks => some ("type " ++ d.name ++ ":" ++ ",".intercalate ks))
+
 def closedLine (id : String) (P : Prog) : String :=
   let bad := P.fns.filterMap fun f =>
     match residue f with
@@ -109,6 +139,13 @@ def runLine (fuel : Nat) (l : String) : String :=
   | none => s!"{id}\tparse-error"
   | some sx =>
     match sx with
+    | .list (.atom "mono" :: _ :: .list (.atom "enums" :: es) :: .list (.atom "structs" :: ss) :: _) =>
+      -- `D!id`: the instance definitions mono registered (monoenv.mono_enums / mono_structs)
+      match optMapM decEnum es, optMapM decStruct ss with
+      | some es, some ss =>
+        let bad := defResidues es ss
+        if bad.isEmpty then s!"{id}\tclosed\t" else s!"{id}\topen\t{" ;; ".intercalate bad}"
+      | _, _ => s!"{id}\tdecode-error"
     | .list (.atom "prog" :: _) =>
       match decProg sx with
       | some P => if id.startsWith "S!" then semLine id P else closedLine id P
